@@ -392,6 +392,12 @@ def correspond(ctx, res, jobs, results):
                     break
 
 
+def translate(ctx):
+    """regenerate lean/PyTough/Gen/ListingBind.lean (per-simulator method binding) from the current /repo source"""
+    from translate import listing_bind
+    listing_bind.run()
+
+
 def run(ctx):
     res = Result()
     res.rule = ('cases = action sequences on a freshly opened reader of a shipped listing, a truncated copy (1..N-1 result times) or a '
